@@ -176,7 +176,7 @@ static void print_result(uint64_t seed, const RunResult &r) {
 
 int worker_main(int argc, char **argv, const Harness &h) {
   std::string prop, replay;
-  uint64_t seed = 1, base = 1, stride = 1, offset = 0, max_runs = ~0ull, first_index = 0;
+  uint64_t seed = 1, base = 1, stride = 1, offset = 0, max_runs = ~0ull, first_index = 0, log_seed = 0;
   double budget = 0;
   bool thorough = false, log = false, emit = false, have_seed = false, statelog = false;
   for (int i = 1; i < argc; i++) {
@@ -187,6 +187,7 @@ int worker_main(int argc, char **argv, const Harness &h) {
     else if (a == "--base") base = strtoull(nxt(), nullptr, 10);
     else if (a == "--stride") stride = strtoull(nxt(), nullptr, 10);
     else if (a == "--offset") offset = strtoull(nxt(), nullptr, 10);
+    else if (a == "--log-seed") log_seed = strtoull(nxt(), nullptr, 10);
     else if (a == "--first-index") first_index = strtoull(nxt(), nullptr, 10);
     else if (a == "--budget-s") budget = atof(nxt());
     else if (a == "--max-runs") max_runs = strtoull(nxt(), nullptr, 10);
@@ -236,7 +237,8 @@ int worker_main(int argc, char **argv, const Harness &h) {
     printf("RUN %llu\n", (unsigned long long)s);
     fflush(stdout);
     Plan p = h.gen(prop, s, thorough);
-    RunResult r = h.run(p, false);
+    RunResult r = h.run(p, log_seed != 0 && s == log_seed);
+    if (log_seed != 0 && s == log_seed) fputs(r.sample.c_str(), stdout);
     runs++;
     for (auto &kv : r.counters) sum[kv.first] += kv.second;
     sim_us += r.sim_us;
